@@ -7,7 +7,9 @@
 EXTENDS Attrs
 
 RECURSIVE SumF(_, _, _)
-SumF(F(_), lo, hi) == IF lo > hi THEN 0 ELSE F(lo) + SumF(F, lo + 1, hi)
+\* (split in halves: a recursion of depth n costs TLC time quadratic in n, so a dot product of length 8193 never finished)
+SumF(F(_), lo, hi) == IF lo > hi THEN 0 ELSE IF lo = hi THEN F(lo)
+                      ELSE LET mid == (lo + hi) \div 2 IN SumF(F, lo, mid) + SumF(F, mid + 1, hi)
 
 \* an exact rational result n/d as an element: the bare integer when it is one
 QElem(n, d) == IF n % d = 0 THEN n \div d ELSE Rat(n, d)
